@@ -104,7 +104,7 @@ func Generate(r *rand.Rand, k Knobs) *Scenario {
 	pct := func(p int) bool { return r.Intn(100) < p }
 	used := map[string]bool{}
 	if pct(k.LocalPct) {
-		locals := []string{"my/local", "a.b/x", "x", "my/Local/pkg", "h.io/u/d", "my/local/", "e.f/x1"}
+		locals := []string{"my/local", "a.b/x", "x", "my/Local/pkg", "h.io/u/d", "my/local/", "e.f/x1", "my/mod/v2", "h.io/u/d/v3", "g/y/v10"}
 		s.LocalPath = locals[r.Intn(len(locals))]
 		used[s.LocalPath] = true
 		if r.Intn(2) == 0 {
